@@ -1,0 +1,11 @@
+//go:build !verif
+
+package verifhook
+
+import "time"
+
+// Event does nothing unless built with the "verif" tag.
+func Event(point int, args ...interface{}) {}
+
+// Tick returns a nil channel unless built with the "verif" tag.
+func Tick() <-chan time.Time { return nil }
